@@ -2,6 +2,7 @@ package main
 
 import (
 	"context"
+	"encoding/base64"
 	"errors"
 	"fmt"
 	"io"
@@ -11,6 +12,8 @@ import (
 	"sync"
 	"time"
 
+	cryptomb "github.com/envoyproxy/go-control-plane/contrib/envoy/extensions/private_key_providers/cryptomb/v3alpha"
+	qat "github.com/envoyproxy/go-control-plane/contrib/envoy/extensions/private_key_providers/qat/v3alpha"
 	core "github.com/envoyproxy/go-control-plane/envoy/config/core/v3"
 	envoytls "github.com/envoyproxy/go-control-plane/envoy/extensions/transport_sockets/tls/v3"
 	discovery "github.com/envoyproxy/go-control-plane/envoy/service/discovery/v3"
@@ -67,7 +70,10 @@ var (
 		{"istio-system", "a", [6]string{"S:Kubernetes:istio-system:a:cert", "S:Kubernetes:istio-system:a:key", "", "", "", ""}},
 		{"ns1", "c", [6]string{"S:Kubernetes:ns1:c:cert", "S:Kubernetes:ns1:c:key", "", "", "", ""}},
 		{"ns1", "d", [6]string{"", "", "", "S:Kubernetes:ns1:d:tls.crt", "S:Kubernetes:ns1:d:tls.key", ""}},
+		{"ns1", "e", [6]string{"S:Kubernetes:ns1:e:cert", "S:Kubernetes:ns1:e:key", "", "", "", ""}},
 	}
+	// a Gateway that is created or deleted while streams are alive (scoped push with ConfigsUpdated = {Gateway})
+	optionalGateway = worldGateway{"ns1", "", nil, []worldServer{{"kubernetes-gateway://ns1/e", "SIMPLE"}}}
 	// ClusterAliases of the discovery server: the client-claimed CLUSTER_ID is rewritten before anything else
 	streamAliases = [][2]string{{"alias-k", "Kubernetes"}, {"alias-x", "nowhere"}}
 	streamAllow   = [][2]string{{"sa1", "ns1"}, {"sa1", "ns2"}, {"sa2", "ns2"}, {"sa1", "istio-system"}} // (sa, ns)
@@ -123,6 +129,35 @@ func streamConfigs() []config.Config {
 	return out
 }
 
+func optionalGatewayConfig() config.Config {
+	g := optionalGateway
+	return config.Config{
+		Meta: config.Meta{GroupVersionKind: gvk.Gateway, Name: "gw-optional", Namespace: g.ns},
+		Spec: &networking.Gateway{Servers: []*networking.Server{{
+			Port:  &networking.Port{Number: 9443, Protocol: "HTTPS", Name: "p9443"},
+			Hosts: []string{"optional.example.com"},
+			Tls:   &networking.ServerTLSSettings{Mode: tlsMode(g.servers[0].mode), CredentialName: g.servers[0].cred},
+		}}},
+	}
+}
+
+// setOptionalGateway creates or deletes the optional Gateway in the server's config store (which triggers the real
+// scoped push: ConfigsUpdated = {Gateway ns1/gw-optional}) and waits until the push context has it.
+func (s *streamSUT) setOptionalGateway(present bool) {
+	srv := s.server()
+	cfg := optionalGatewayConfig()
+	if present {
+		_, _ = srv.Store().Create(cfg)
+	} else {
+		_ = srv.Store().Delete(gvk.Gateway, cfg.Name, cfg.Namespace, nil)
+	}
+	time.Sleep(2 * time.Millisecond)
+	c := srv.Discovery.InboundUpdates.Load()
+	for i := 0; i < 20000 && srv.Discovery.CommittedUpdates.Load() < c; i++ {
+		time.Sleep(time.Millisecond)
+	}
+}
+
 func writeStreamWorld(out *wire.Out) {
 	for _, a := range streamAliases {
 		out.Line("alias", a[0], a[1])
@@ -141,6 +176,7 @@ func writeStreamWorld(out *wire.Out) {
 			out.Line("srv", "1", "-", wire.Enc(sv.cred), sv.mode, "~")
 		}
 	}
+	out.Line("gwopt", optionalGateway.ns, wire.Enc(optionalGateway.servers[0].cred))
 	for _, g := range streamGrants {
 		out.Line("rgrant", g.srcNs, g.from, g.fromNs, g.to, wire.Enc(g.name))
 	}
@@ -219,6 +255,8 @@ func (s *streamSUT) server() *txds.FakeDiscoveryServer {
 			installSAR(c.Kube().(*fake.Clientset), &sarPolicy{allow: allowed})
 		},
 	})
+	// the fake server registers the debug generator before its debug mux exists; wire it as bootstrap does
+	s.srv.Discovery.Generators[v3.DebugType] = pxds.NewDebugGen(s.srv.Discovery, "istio-system", s.srv.DiscoveryDebug)
 	s.srv.Discovery.ClusterAliases = map[cluster.ID]cluster.ID{}
 	for _, a := range streamAliases {
 		s.srv.Discovery.ClusterAliases[cluster.ID(a[0])] = cluster.ID(a[1])
@@ -244,14 +282,17 @@ type baseStream struct {
 	srv    *pxds.DiscoveryServer
 	obs    *observed
 	calls  int
-	wantID string   // proxy id (3rd part of the node id) of this op; ids are unique per op
-	plan   []string // what the client does after the first request: "req2", "push"
+	wantID string        // proxy id (3rd part of the node id) of this op; ids are unique per op
+	cancel chan struct{} // closed when the client gives up waiting (the stream already ended)
+	plan   []string      // what the client does after the first request: "req2", "push"
 	step   int
 	fake   *txds.FakeDiscoveryServer
+	change func() // the world change of the "gwchange" step
+	quiet  bool   // the step just done produces no phase of its own
 }
 
 // Sentinel requests: cheap registered types that never fail; one distinct type per phase.
-var sentinelTypes = []string{v3.ExtensionConfigurationType, v3.NameTableType, v3.ProxyConfigType}
+var sentinelTypes = []string{v3.ExtensionConfigurationType, v3.NameTableType, v3.ProxyConfigType, v3.WorkloadAuthorizationType}
 
 func sentinelNames(n int) []string {
 	if sentinelTypes[n] == v3.ExtensionConfigurationType {
@@ -273,6 +314,13 @@ func (b *baseStream) proxy() *model.Proxy {
 // handled in order on one goroutine, and handling the sentinel records a watch for its (unknown) type.
 func (b *baseStream) waitProcessed(n int) {
 	for i := 0; i < 20000; i++ {
+		if b.cancel != nil {
+			select {
+			case <-b.cancel:
+				return
+			default:
+			}
+		}
 		if p := b.proxy(); p == nil || p.GetWatchedResource(sentinelTypes[n]) != nil {
 			return
 		}
@@ -354,8 +402,14 @@ func (b *baseStream) record(resources []*anypb.Any) {
 			v.kind, v.hasKey = "K", true
 			v.cert = string(tc.GetCertificateChain().GetInlineBytes())
 			v.key = string(tc.GetPrivateKey().GetInlineBytes())
-			if tc.GetPrivateKeyProvider() != nil {
-				v.kind = "P"
+			if pkp := tc.GetPrivateKeyProvider(); pkp != nil {
+				v.kind = "P:" + pkp.GetProviderName()
+				cm, qc := &cryptomb.CryptoMbPrivateKeyMethodConfig{}, &qat.QatPrivateKeyMethodConfig{}
+				if pkp.GetTypedConfig().UnmarshalTo(cm) == nil {
+					v.key = string(cm.GetPrivateKey().GetInlineBytes())
+				} else if pkp.GetTypedConfig().UnmarshalTo(qc) == nil {
+					v.key = string(qc.GetPrivateKey().GetInlineBytes())
+				}
 			}
 		} else {
 			v.kind = "C"
@@ -380,7 +434,10 @@ func (b *baseStream) next() string {
 	// calls >= 3: the previous thing sent was a sentinel (even calls send sentinels) or a planned action
 	if b.calls%2 == 1 {
 		b.waitProcessed((b.calls - 3) / 2)
-		b.closeSegment()
+		if !b.quiet {
+			b.closeSegment()
+		}
+		b.quiet = false
 		if b.step >= len(b.plan) {
 			return "eof"
 		}
@@ -389,6 +446,25 @@ func (b *baseStream) next() string {
 		if act == "push" {
 			b.triggerPush()
 			b.calls++ // the push needs no message of its own: go straight to its sentinel
+			return "sentinel:" + strconv.Itoa((b.calls-2)/2)
+		}
+		if act == "gwchange" {
+			// a Gateway is created / deleted: the server pushes on its own (scoped, not forced); SDS is not part of
+			// that push, so the change shows in the next phase
+			p := b.proxy()
+			var before *model.PushContext
+			if p != nil {
+				before = p.LastPushContext
+			}
+			b.change()
+			for i := 0; i < 20000; i++ {
+				if q := b.proxy(); q == nil || q.LastPushContext != before {
+					break
+				}
+				time.Sleep(time.Millisecond)
+			}
+			b.quiet = true
+			b.calls++
 			return "sentinel:" + strconv.Itoa((b.calls-2)/2)
 		}
 		return act
@@ -466,6 +542,7 @@ type streamOp struct {
 	hasNames2        bool
 	names2           []string // second SDS request on the same stream
 	push             bool     // a full push while the stream is alive
+	gwop             string   // none | add | del: the optional Gateway is created / deleted after phase 1
 	authn            []security.Authenticator
 	presentedIDs     []string // identities of every authenticator that answers without error
 	anyAuthenticates bool
@@ -474,11 +551,11 @@ type streamOp struct {
 func decStream(f []string) streamOp {
 	o := streamOp{delta: f[1] == "delta", xdsAuth: f[2] == "1", peer: f[3], plaintextOK: f[4] == "1", flag: f[5] == "1",
 		nodeID: wire.Dec(f[6]), metaNs: wire.Dec(f[8]), metaSA: wire.Dec(f[9]), names: wire.DecList(f[10]),
-		clusterID: wire.Dec(f[11]), labels: wire.DecList(f[12]), push: f[14] == "1"}
+		clusterID: wire.Dec(f[11]), labels: wire.DecList(f[12]), push: f[14] == "1", gwop: f[15]}
 	if f[13] != "none" {
 		o.hasNames2, o.names2 = true, wire.DecList(f[13])
 	}
-	for _, r := range f[15:] {
+	for _, r := range f[16:] {
 		a := decAuthn(r)
 		o.authn = append(o.authn, a)
 		if a.err == nil && !a.nilCaller && len(a.ids) > 0 {
@@ -531,6 +608,14 @@ func (s *streamSUT) run(o streamOp) streamResult {
 	base := baseStream{ctx: peerCtx(o.peer), srv: srv.Discovery, obs: obs}
 	if parts := strings.Split(o.nodeID, "~"); len(parts) >= 3 {
 		base.wantID = parts[2]
+	}
+	if o.gwop == "add" || o.gwop == "del" {
+		if o.gwop == "del" {
+			s.setOptionalGateway(true) // it exists when the proxy connects
+		}
+		base.plan = append(base.plan, "gwchange")
+		base.change = func() { s.setOptionalGateway(o.gwop == "add") }
+		defer s.setOptionalGateway(false)
 	}
 	if o.hasNames2 {
 		base.plan = append(base.plan, "req2")
@@ -591,8 +676,10 @@ func (s *streamSUT) run(o streamOp) streamResult {
 
 func (s *streamSUT) apply(f []string) string {
 	switch f[0] {
-	case "case", "cluster", "secret", "allow", "start", "gw", "srv", "rgrant", "alias":
+	case "case", "cluster", "secret", "allow", "start", "gw", "srv", "rgrant", "alias", "gwopt":
 		return "ok"
+	case "debug":
+		return s.applyDebug(f)
 	case "stream":
 		r := s.run(decStream(f))
 		if r.outcome != "accepted" {
@@ -624,7 +711,8 @@ func genStream(seed uint64, n int, outp string) {
 	nameU := []string{"kubernetes://a", "kubernetes://ns1/a", "kubernetes://ns2/a", "kubernetes://istio-system/a", "kubernetes://b-cacert",
 		"kubernetes://a-cacert", "kubernetes://ns1/b-cacert", "kubernetes-gateway://ns1/a", "invalid://x", "bogus", "kubernetes://ns2/a-cacert",
 		"kubernetes-gateway://ns1/a", "kubernetes-gateway://ns2/a", "kubernetes-gateway://ns2/a-cacert", "kubernetes-gateway://istio-system/a",
-		"kubernetes-gateway://ns2/a", "kubernetes-gateway://ns1/a/x", "kubernetes-gateway://ns1/c", "kubernetes-gateway://ns1/c", "kubernetes-gateway://ns1/d", "kubernetes-gateway://ns1/d", "kubernetes-gateway://ns1/b",
+		"kubernetes-gateway://ns2/a", "kubernetes-gateway://ns1/a/x", "kubernetes-gateway://ns1/c", "kubernetes-gateway://ns1/c", "kubernetes-gateway://ns1/d", "kubernetes-gateway://ns1/d", "kubernetes-gateway://ns1/b", "kubernetes-gateway://ns1/e", "kubernetes-gateway://ns1/e",
+		"kubernetes-gateway://ns1/e",
 		"kubernetes://c"}
 	for c := 0; c < n; c++ {
 		r := root.Fork()
@@ -664,6 +752,9 @@ func genStream(seed uint64, n int, outp string) {
 				// a second request on the live stream; it always asks for at least one name not asked before, so that both
 				// protocols must answer it
 				n2 := append(wire.Subset(r, nameU, 1, 3), "kubernetes://fresh-"+strconv.Itoa(c)+"-"+strconv.Itoa(i))
+				if r.Chance(1, 2) {
+					n2 = append(n2, "kubernetes-gateway://ns1/e")
+				}
 				names2 = wire.EncList(dedup(n2))
 			}
 			cid := wire.Pick(r, []string{streamCluster, streamCluster, streamCluster, streamCluster, "alias-k", "alias-k", "alias-x", "other", ""})
@@ -671,14 +762,23 @@ func genStream(seed uint64, n int, outp string) {
 			toks := []string{"stream", wire.Pick(r, []string{"sotw", "delta"}), wire.B(r.Chance(11, 12)),
 				wire.Pick(r, []string{"tls", "tls", "tls", "tls", "tls", "tls", "tls", "plain", "plain", "none"}), wire.B(r.Chance(1, 8)), wire.B(r.Chance(11, 12)),
 				wire.Enc(strings.Join(parts, "~")), wire.B(ip.ok), wire.Enc(metaNs), wire.Enc(metaSA),
-				wire.EncList(names1), wire.Enc(cid), labels, names2, wire.B(r.Chance(1, 2))}
+				wire.EncList(names1), wire.Enc(cid), labels, names2, wire.B(r.Chance(1, 2)), wire.Pick(r, []string{"none", "none", "add", "del"})}
 			for j, m := 0, 1+r.Intn(3); j < m; j++ {
 				toks = append(toks, genAuthnResult(r, eff, metaSA))
 			}
 			if r.Chance(1, 15) {
-				toks = toks[:15] // no authenticator configured
+				toks = toks[:16] // no authenticator configured
 			}
 			out.Line(toks...)
+		}
+		// the other release surfaces: a victim gateway proxy (often with a private key provider) and an asker
+		for i, k := 0, r.Intn(3); i < k; i++ {
+			vns := wire.Pick(r, []string{"ns1", "ns1", "ns2"})
+			out.Line("debug", wire.Pick(r, []string{"sotw", "delta"}), vns, wire.Pick(r, []string{"sa1", "sa1", "sa2"}),
+				wire.Pick(r, []string{"~", "cryptomb", "qat", "cryptomb"}), wire.Pick(r, []string{"-", "app=edge", "app=edge,tier=x"}),
+				wire.EncList(dedup(append(wire.Subset(r, nameU, 1, 3), "kubernetes://a"))),
+				wire.Pick(r, []string{vns, vns, "ns1", "ns2", "istio-system"}), wire.Pick(r, []string{"sa1", "sa2", "sa2"}), wire.B(r.Chance(7, 8)),
+				wire.Pick(r, []string{"sds", "sds", "full", "sgdump", "sgdump", "syncz", "sgsyncz", "api", "self"}))
 		}
 	}
 }
@@ -760,7 +860,24 @@ func (s *streamSUT) oracleStream(f []string) string {
 	if effCluster != streamCluster && len(r.obs.secrets) > 0 {
 		return "secret-released-for-unknown-cluster " + wire.Enc(o.clusterID)
 	}
-	for _, sv := range r.obs.secrets {
+	// which phase each sent secret belongs to: the optional Gateway exists in phase 0 iff it is deleted later, and in the
+	// later phases iff it was created
+	type phased struct {
+		sv    secretView
+		phase int
+	}
+	var all []phased
+	for i, sg := range r.obs.segs {
+		for _, sv := range sg {
+			all = append(all, phased{sv, i})
+		}
+	}
+	for _, ps := range all {
+		sv := ps.sv
+		gateways := streamGateways
+		if (ps.phase == 0 && o.gwop == "del") || (ps.phase > 0 && o.gwop == "add") {
+			gateways = append(append([]worldGateway{}, streamGateways...), optionalGateway)
+		}
 		if v == nil {
 			return "secret-sent-to-unverified-stream " + wire.Enc(sv.name)
 		}
@@ -784,7 +901,7 @@ func (s *streamSUT) oracleStream(f []string) string {
 			// released through a verified reference: a Gateway of the verified namespace that expects this identity must
 			// reference exactly this name, and the secret is in the verified namespace or opened by a ReferenceGrant
 			ok := false
-			for _, g := range streamGateways {
+			for _, g := range gateways {
 				if g.ns != v.Namespace || (g.saAnn != "" && g.saAnn != v.ServiceAccount) || !strings.HasPrefix(o.nodeID, "router~") {
 					continue
 				}
@@ -826,6 +943,340 @@ func (s *streamSUT) oracleStream(f []string) string {
 				return "private-key-to-unauthorised-account " + wire.Enc(sv.name)
 			}
 		}
+	}
+	return ""
+}
+
+// ---------------------------------------------------------------- op `debug`: the other release surfaces
+//
+// debug <mode> <vns> <vsa> <vpkp> <vlabels> <vnames> <ans> <asa> <atls> <query>
+//
+// A victim gateway proxy (router, identity vns/vsa, optional private-key-provider ProxyConfig, labels) keeps a real
+// stream alive with an SDS subscription; an attacker proxy (sidecar, identity ans/asa, TLS or plaintext) opens a second
+// real stream and asks one of the VerifiedIdentity-gated generators about it:
+//   sds / full   debug generator (istio.io/debug): config_dump?proxyID=<victim>[&types=sds]
+//   sgdump       status generator (istio.io/debug/config_dump) with the victim's proxy id
+//   syncz        debug generator: syncz (system namespace only)
+//   sgsyncz      status generator: istio.io/debug/syncz
+//   api          API generator: networking.istio.io/v1/Gateway (control-plane identities only)
+//   self         debug generator: config_dump of the attacker's own connection
+// Observed: how the attacker's stream ends and which of the world's secret payloads (certificates, CA, KEYS) occur
+// anywhere in what it was sent, in any encoding used by the responses.
+
+type debugOp struct {
+	delta           bool
+	vns, vsa, vpkp  string
+	vlabels, vnames []string
+	ans, asa        string
+	atls            bool
+	query           string
+}
+
+func decDebug(f []string) debugOp {
+	return debugOp{delta: f[1] == "delta", vns: wire.Dec(f[2]), vsa: wire.Dec(f[3]), vpkp: wire.Dec(f[4]), vlabels: wire.DecList(f[5]),
+		vnames: wire.DecList(f[6]), ans: wire.Dec(f[7]), asa: wire.Dec(f[8]), atls: f[9] == "1", query: f[10]}
+}
+
+var debugCounter int
+
+type rawSink struct {
+	mu   sync.Mutex
+	body []byte
+}
+
+func (r *rawSink) add(b []byte) {
+	r.mu.Lock()
+	r.body = append(r.body, b...)
+	r.body = append(r.body, '\n')
+	r.mu.Unlock()
+}
+
+// holdConn is a SotW client that sends one request, waits until it is processed, signals, and keeps the stream open
+// until released.
+type holdConn struct {
+	baseStream
+	first   *discovery.DiscoveryRequest
+	ready   chan struct{}
+	release chan struct{}
+	sink    *rawSink
+}
+
+func (h *holdConn) Recv() (*discovery.DiscoveryRequest, error) {
+	h.calls++
+	switch h.calls {
+	case 1:
+		return h.first, nil
+	case 2:
+		h.observeConnection()
+		return &discovery.DiscoveryRequest{TypeUrl: sentinelTypes[0], ResourceNames: sentinelNames(0)}, nil
+	}
+	h.waitProcessed(0)
+	close(h.ready)
+	<-h.release
+	return nil, io.EOF
+}
+
+func (h *holdConn) Send(r *discovery.DiscoveryResponse) error {
+	if r.TypeUrl == v3.SecretType {
+		h.record(r.Resources)
+	}
+	if h.sink != nil {
+		for _, x := range r.Resources {
+			h.sink.add(x.Value)
+		}
+	}
+	return nil
+}
+
+type holdDeltaConn struct {
+	baseStream
+	first   *discovery.DeltaDiscoveryRequest
+	ready   chan struct{}
+	release chan struct{}
+	sink    *rawSink
+}
+
+func (h *holdDeltaConn) Recv() (*discovery.DeltaDiscoveryRequest, error) {
+	h.calls++
+	switch h.calls {
+	case 1:
+		return h.first, nil
+	case 2:
+		h.observeConnection()
+		return &discovery.DeltaDiscoveryRequest{TypeUrl: sentinelTypes[0], ResourceNamesSubscribe: sentinelNames(0)}, nil
+	}
+	h.waitProcessed(0)
+	close(h.ready)
+	<-h.release
+	return nil, io.EOF
+}
+
+func (h *holdDeltaConn) Send(r *discovery.DeltaDiscoveryResponse) error {
+	if h.sink != nil {
+		for _, x := range r.Resources {
+			h.sink.add(x.Resource.GetValue())
+		}
+	}
+	return nil
+}
+
+func nodeMeta(ns, sacc string, labels []string, pkp string) *structpb.Struct {
+	fields := map[string]any{"CLUSTER_ID": streamCluster, "NAMESPACE": ns}
+	if sacc != "" {
+		fields["SERVICE_ACCOUNT"] = sacc
+	}
+	if len(labels) > 0 {
+		lm := map[string]any{}
+		for _, kv := range labels {
+			k, v, _ := strings.Cut(kv, "=")
+			lm[k] = v
+		}
+		fields["LABELS"] = lm
+	}
+	switch pkp {
+	case "cryptomb":
+		fields["PROXY_CONFIG"] = map[string]any{"privateKeyProvider": map[string]any{"cryptomb": map[string]any{"pollDelay": "0.010s"}}}
+	case "qat":
+		fields["PROXY_CONFIG"] = map[string]any{"privateKeyProvider": map[string]any{"qat": map[string]any{"pollDelay": "0.010s"}}}
+	}
+	md, _ := structpb.NewStruct(fields)
+	return md
+}
+
+func streamOutcome(serr error) string {
+	switch {
+	case serr == nil:
+		return "accepted"
+	case serr.Error() == "panic":
+		return "crash"
+	}
+	switch status.Code(serr) {
+	case codes.PermissionDenied:
+		return "denied"
+	case codes.Unauthenticated:
+		return "unauthenticated"
+	case codes.InvalidArgument:
+		return "badnode"
+	}
+	return "error:" + status.Code(serr).String()
+}
+
+type debugResult struct {
+	outcome     string
+	certs, keys []string // payload tags of the world's secrets that occur in what the attacker received
+	victim      []secretView
+}
+
+func (s *streamSUT) runDebug(o debugOp) debugResult {
+	srv := s.server()
+	oldA, oldP, oldF := features.XDSAuth, security.AuthPlaintext, features.EnableXDSIdentityCheck
+	features.XDSAuth, security.AuthPlaintext, features.EnableXDSIdentityCheck = true, false, true
+	oldAuthn := srv.Discovery.Authenticators
+	defer func() {
+		features.XDSAuth, security.AuthPlaintext, features.EnableXDSIdentityCheck = oldA, oldP, oldF
+		srv.Discovery.Authenticators = oldAuthn
+	}()
+	debugCounter++
+	vid := "victim-" + strconv.Itoa(debugCounter) + "." + o.vns
+	aid := "attacker-" + strconv.Itoa(debugCounter) + "." + o.ans
+	// ---- the victim connects and subscribes
+	srv.Discovery.Authenticators = []security.Authenticator{fakeAuthn{ids: []string{"spiffe://cluster.local/ns/" + o.vns + "/sa/" + o.vsa}}}
+	vobs := &observed{}
+	vbase := baseStream{ctx: peerCtx("tls"), srv: srv.Discovery, obs: vobs, wantID: vid}
+	vnode := &core.Node{Id: "router~1.2.3.4~" + vid + "~" + o.vns + ".svc.cluster.local", Metadata: nodeMeta(o.vns, o.vsa, o.vlabels, o.vpkp)}
+	ready, release := make(chan struct{}), make(chan struct{})
+	vdone := make(chan error, 1)
+	go func() {
+		defer func() {
+			if r := recover(); r != nil {
+				vdone <- errors.New("panic")
+			}
+		}()
+		vdone <- srv.Discovery.Stream(&holdConn{baseStream: vbase, ready: ready, release: release,
+			first: &discovery.DiscoveryRequest{Node: vnode, TypeUrl: v3.SecretType, ResourceNames: o.vnames}})
+	}()
+	select {
+	case <-ready:
+	case e := <-vdone:
+		return debugResult{outcome: "victim-" + streamOutcome(e)}
+	case <-time.After(30 * time.Second):
+		return debugResult{outcome: "victim-timeout"}
+	}
+	// ---- the attacker connects and asks
+	srv.Discovery.Authenticators = []security.Authenticator{fakeAuthn{ids: []string{"spiffe://cluster.local/ns/" + o.ans + "/sa/" + o.asa}}}
+	typeURL, names := v3.DebugType, []string{"config_dump?proxyID=" + vid + "&types=sds"}
+	switch o.query {
+	case "full":
+		names = []string{"config_dump?proxyID=" + vid}
+	case "self":
+		names = []string{"config_dump?proxyID=" + aid + "&types=sds"}
+	case "syncz":
+		names = []string{"syncz"}
+	case "sgdump":
+		typeURL, names = pxds.TypeDebugConfigDump, []string{vid}
+	case "sgsyncz":
+		typeURL, names = pxds.TypeDebugSyncronization, nil
+	case "api":
+		typeURL, names = "networking.istio.io/v1/Gateway", nil
+	}
+	peerKind := "tls"
+	if !o.atls {
+		peerKind = "plain"
+	}
+	sink := &rawSink{}
+	aready, arelease := make(chan struct{}), make(chan struct{})
+	abase := baseStream{ctx: peerCtx(peerKind), srv: srv.Discovery, obs: &observed{}, wantID: aid, cancel: arelease}
+	anode := &core.Node{Id: "sidecar~1.2.3.5~" + aid + "~" + o.ans + ".svc.cluster.local", Metadata: nodeMeta(o.ans, o.asa, nil, "")}
+	adone := make(chan error, 1)
+	go func() {
+		defer func() {
+			if r := recover(); r != nil {
+				adone <- errors.New("panic")
+			}
+		}()
+		if o.delta {
+			adone <- srv.Discovery.StreamDeltas(&holdDeltaConn{baseStream: abase, ready: aready, release: arelease, sink: sink,
+				first: &discovery.DeltaDiscoveryRequest{Node: anode, TypeUrl: typeURL, ResourceNamesSubscribe: names}})
+		} else {
+			adone <- srv.Discovery.Stream(&holdConn{baseStream: abase, ready: aready, release: arelease, sink: sink,
+				first: &discovery.DiscoveryRequest{Node: anode, TypeUrl: typeURL, ResourceNames: names}})
+		}
+	}()
+	var aerr error
+	timedOut := false
+	select {
+	case <-aready:
+		close(arelease)
+		aerr = <-adone
+	case aerr = <-adone:
+		// the stream ended on an error while its receive goroutine may still sit in Recv: let it finish, otherwise
+		// the connection is never unregistered
+		close(arelease)
+	case <-time.After(30 * time.Second):
+		close(arelease)
+		timedOut = true
+	}
+	close(release)
+	if timedOut {
+		return debugResult{outcome: "attacker-timeout"}
+	}
+	<-vdone
+	for i := 0; i < 20000 && len(srv.Discovery.AllClients()) > 0; i++ {
+		time.Sleep(time.Millisecond)
+	}
+	res := debugResult{outcome: streamOutcome(aerr)}
+	vobs.mu.Lock()
+	res.victim = append(res.victim, vobs.secrets...)
+	vobs.mu.Unlock()
+	sink.mu.Lock()
+	body := string(sink.body)
+	sink.mu.Unlock()
+	for _, sec := range streamSecrets {
+		for _, payload := range sec.data {
+			if payload == "" {
+				continue
+			}
+			// inline bytes travel raw inside protobuf messages and base64-encoded inside JSON dumps; a base64 string
+			// nested in another base64 layer is covered by the three alignments of its encoding
+			if containsEncoded(body, payload) {
+				if strings.HasSuffix(payload, "key") {
+					res.keys = append(res.keys, payload)
+				} else {
+					res.certs = append(res.certs, payload)
+				}
+			}
+		}
+	}
+	return res
+}
+
+func containsEncoded(body, payload string) bool {
+	if strings.Contains(body, payload) {
+		return true
+	}
+	b64 := base64.StdEncoding.EncodeToString([]byte(payload))
+	if strings.Contains(body, b64) || strings.Contains(body, strings.TrimRight(b64, "=")) {
+		return true
+	}
+	// the payload somewhere inside a longer base64-encoded message: try the three byte alignments, dropping the
+	// characters that depend on neighbouring bytes
+	for pad := 0; pad < 3; pad++ {
+		e := base64.StdEncoding.EncodeToString(append(make([]byte, pad), payload...))
+		e = strings.TrimRight(e, "=")
+		lo := 0
+		if pad > 0 {
+			lo = 4
+		}
+		hi := len(e) - 2
+		if hi > lo+8 && strings.Contains(body, e[lo:hi]) {
+			return true
+		}
+	}
+	return false
+}
+
+func (s *streamSUT) applyDebug(f []string) string {
+	r := s.runDebug(decDebug(f))
+	return "debug " + r.outcome + " certs=" + wire.EncSet(r.certs) + " keys=" + wire.EncSet(r.keys)
+}
+
+// oracleDebug: whatever a proxy asks the debug / status / API generators, no private key of the world may occur in
+// what it is sent - these surfaces are gated by VerifiedIdentity and a namespace comparison only, never by RBAC - and
+// an unauthenticated stream gets nothing from them at all.
+func (s *streamSUT) oracleDebug(f []string) string {
+	o := decDebug(f)
+	r := s.runDebug(o)
+	if strings.HasPrefix(r.outcome, "victim-") || r.outcome == "crash" || r.outcome == "attacker-timeout" {
+		return "debug-harness-" + r.outcome
+	}
+	if len(r.keys) > 0 {
+		return "private-key-in-debug-response query=" + o.query + " " + wire.Enc(strings.Join(r.keys, ","))
+	}
+	if !o.atls && len(r.certs) > 0 {
+		return "debug-data-to-unauthenticated-stream query=" + o.query
+	}
+	if o.atls && o.ans != "istio-system" && o.ans != o.vns && len(r.certs) > 0 {
+		return "debug-data-across-namespaces query=" + o.query
 	}
 	return ""
 }
